@@ -164,7 +164,15 @@ func interpolateMap[K comparable, V any, M ~map[K]V](tf stringTransformer, m M) 
 // interpolateOrderedMap applies interpolateAny over any type of ordered.Map.
 // The map is altered in-place.
 func interpolateOrderedMap[K comparable, V any](tf stringTransformer, m *ordered.Map[K, V]) error {
-	return m.Range(func(k K, v V) error {
+	// Interpolate everything first, then rebuild the map in the same order.
+	// Renaming keys one at a time with Replace would delete another item whose
+	// (not yet interpolated) key happens to equal the new key.
+	type entry struct {
+		k, intk K
+		intv    V
+	}
+	entries := make([]entry, 0, m.Len())
+	if err := m.Range(func(k K, v V) error {
 		// We interpolate both keys and values.
 		intk, err := interpolateAny(tf, k)
 		if err != nil {
@@ -174,8 +182,17 @@ func interpolateOrderedMap[K comparable, V any](tf stringTransformer, m *ordered
 		if err != nil {
 			return err
 		}
-
-		m.Replace(k, intk, intv)
+		entries = append(entries, entry{k: k, intk: intk, intv: intv})
 		return nil
-	})
+	}); err != nil {
+		return err
+	}
+
+	for _, e := range entries {
+		m.Delete(e.k)
+	}
+	for _, e := range entries {
+		m.Set(e.intk, e.intv)
+	}
+	return nil
 }
